@@ -20,6 +20,41 @@ RELS = {
 TID = {'Article': 0, 'Tag': 1}
 
 
+def visible_links(dump):
+    """association rows both of whose ends exist.  SQLAlchemy itself leaves a dangling association row behind when
+    a pair is linked and the parent deleted in one flush (also without continuum); such a row cannot be seen or
+    removed through the relationship, so the relationship clause of C05 does not speak about it."""
+    have = {(l.split(' ')[0], l.split(' ')[1]) for l in dump['live']}
+    out = []
+    for r in dump['links']:
+        ends = r.split(' ')[1].split(',')
+        if len(ends) == 2 and (str(TID['Article']), ends[0]) in have and (str(TID['Tag']), ends[1]) in have:
+            out.append(r)
+        elif len(ends) != 2:
+            out.append(r)
+    return out
+
+
+def relates_then_deletes(prog):
+    """is an entity made one end of a relationship (link / scalar assignment) and deleted later in the same
+    transaction?  SQLAlchemy then leaves a dangling foreign key / association row behind (with or without continuum),
+    i.e. the history hands the reverter an application database that is inconsistent already."""
+    touched = set()
+    for st in prog:
+        if st[0] in ('link', 'unlink'):
+            touched.add((st[1], tuple(st[2])))
+            touched.add((st[4], tuple(st[5])))
+        elif st[0] == 'setrel':
+            touched.add((st[1], tuple(st[2])))
+            if st[5] is not None:
+                touched.add((st[4], tuple(st[5])))
+        elif st[0] == 'del' and (st[1], tuple(st[2])) in touched:
+            return True
+        elif st[0] in ('commit', 'rollback'):
+            touched.clear()
+    return False
+
+
 def make_spec(shape, strategy, exclude=()):
     if shape == 'articles':
         spec = envs.shape_articles({'strategy': strategy}, exclude=list(exclude))
@@ -148,6 +183,23 @@ class C05(Prop):
             prog = proggen.random_program(rng, spec, rng.choice([8, 12, 18]),
                                           weights={'commit': 8, 'flush': 2, 'rollback': 0, 'del': 3, 'setrel': 5, 'link': 6, 'unlink': 3,
                                                    'query': 0, 'set': 8}, nkeys=2)
+            if relates_then_deletes(prog):
+                # drop the deletes that would leave dangling references behind
+                seen, out = set(), []
+                for st in prog:
+                    if st[0] in ('link', 'unlink'):
+                        seen.update([(st[1], tuple(st[2])), (st[4], tuple(st[5]))])
+                    elif st[0] == 'setrel':
+                        seen.add((st[1], tuple(st[2])))
+                        if st[5] is not None:
+                            seen.add((st[4], tuple(st[5])))
+                    elif st[0] in ('commit', 'rollback'):
+                        seen.clear()
+                    if st[0] == 'del' and (st[1], tuple(st[2])) in seen:
+                        out.append(['commit'])       # the delete moves into a transaction of its own
+                        seen.clear()
+                    out.append(st)
+                prog = out
             yield {'spec': spec, 'shape': shape, 'program': prog, 'excluded': excl}
 
     def run_case(self, case):
@@ -191,9 +243,9 @@ class C05(Prop):
                 lines.append('c05b ' + r)
             for r in res['after']['live']:
                 lines.append('c05a ' + r)
-            for r in res['after']['links']:
+            for r in visible_links(res['after']):
                 lines.append('c05l ' + r)
-            for r in res['before']['links']:
+            for r in visible_links(res['before']):
                 lines.append('c05lb ' + r)
             specs = dict(RELS[case['shape']][cname])
             rels = ';'.join(specs[n] for n in res['rels']) or '-'
